@@ -12,6 +12,7 @@ BinOps == {"+", "-", "*", "/", "%"}
 IsNumTok(t) == AllDigits(t)         \* tokens are tuples of characters? no: see LeafVal
 LeafVal(r, n, t) == CASE t = "size" -> r.snapshot[n].sizen [] t = "hardlinks" -> r.snapshot[n].nlinkn
                       [] t = "length(name)" -> Len(NameC(r.world, n))
+                      [] t = "line_count" -> CountByte(r.world.nodes[n].content, 10)
                       [] t = "0" -> 0 [] t = "1" -> 1 [] t = "2" -> 2 [] t = "3" -> 3 [] t = "4" -> 4 [] t = "5" -> 5
                       [] t = "7" -> 7 [] t = "10" -> 10 [] t = "12" -> 12 [] t = "20" -> 20 [] t = "100" -> 100
 
@@ -44,7 +45,8 @@ ARender(toks, i, parentPrec, rightChild, style) ==     \* <<text, next>>
   ELSE IF t \in BinOps THEN
      LET a == ARender(toks, i + 1, APrec(t), FALSE, style)
          b == ARender(toks, a[2], APrec(t), TRUE, style)
-         txt == a[1] \o " " \o t \o " " \o b[1]
+         sp == IF style = "tight" THEN "" ELSE " "                \* tight: the minimal bracketing written without blanks (`line_count+1`)
+         txt == a[1] \o sp \o t \o sp \o b[1]
          need == IF style = "full" THEN parentPrec > 0
                  ELSE APrec(t) < parentPrec \/ (APrec(t) = parentPrec /\ rightChild)
      IN << IF need THEN "(" \o txt \o ")" ELSE txt, b[2] >>
